@@ -18,6 +18,12 @@ pub fn animator_impl(input: TokenStream) -> TokenStream {
         .into()
 }
 
+/// Verification hook: in-process entry to the `animator!` expansion (the parser types are private).
+#[cfg(feature = "verif-hooks")]
+pub fn verif_expand_animator(input: TokenStream2) -> Result<TokenStream2> {
+    expand_animator(syn::parse2::<AnimatorInput>(input)?)
+}
+
 fn expand_animator(input: AnimatorInput) -> Result<TokenStream2> {
     let AnimatorInput {
         target_type,
